@@ -46,8 +46,10 @@ def gen_model(r, *, budget=6000, max_T=4, force=None):
     noperiod = "noperiod" in force
     T = r.choice([1, 2, 2, 3, 3, 4][: max(1, max_T + 2)])
     T = min(T, max_T)
-    if "f1" in force and T < 2:
+    if force & {"f1", "f1two"} and T < 2:
         T = 2
+    if "f1two" in force and T < 3:
+        T = 3
     n_cs = r.choice([0, 0, 1, 1, 2])
     n_ds = r.choice([0, 1, 1, 2, 3])
     if n_cs + n_ds == 0:
@@ -62,8 +64,10 @@ def gen_model(r, *, budget=6000, max_T=4, force=None):
     if "nocc" in force:
         n_cc = 0
         n_dc = max(n_dc, 1)
-    if force & {"f1", "mixed", "filter", "sdaux"}:
+    if force & {"f1", "f1two", "mixed", "filter", "sdaux"}:
         n_ds = max(n_ds, 1)
+    if "f1two" in force:
+        n_dc = max(n_dc, 1)
     if "mixed" in force:
         n_dc = max(n_dc, 2)
     if force & {"filter", "sdaux"}:
@@ -191,7 +195,7 @@ def gen_model(r, *, budget=6000, max_T=4, force=None):
         sd_fams = ["sd", "sd", "sdp", "two"] + (["sdaux"] if "sdaux" in force else [])
         if noperiod:
             sd_fams = [f for f in sd_fams if f != "sdp"]
-        if "f1" in force:
+        if force & {"f1", "f1two"}:
             fam = "f1"
         elif dchoices and (force & {"mixed", "filter", "sdaux"}):
             fam = "sdaux" if "sdaux" in force else r.choice(sd_fams)
@@ -221,6 +225,14 @@ def gen_model(r, *, budget=6000, max_T=4, force=None):
         r.shuffle(args)
         funcs.append(_fn("f0_filter", args, cond, ints=True))
         meta["f1_period"] = p0
+        if dchoices and ("f1two" in force or r.random() < 0.4):
+            # a second, period-independent filter (declared before or after the period-dependent one)
+            d2 = r.choice(dchoices)
+            s2 = r.choice(dstates)
+            k2 = always.get(d2, 0)
+            always[d2] = k2
+            funcs.append(_fn("g1_filter", [d2, s2] if r.random() < 0.5 else [s2, d2], ["or", ["le", V(d2), V(s2)], ["eq", V(d2), N(k2)]], ints=True))
+            meta["f1_two_filters"] = True
     elif fam in ("sd", "sdp", "sdaux", "two"):
         s = r.choice(dstates)
         d = r.choice(dchoices)
